@@ -238,6 +238,31 @@ def run(eng, R):
                      "%s.__init__ replaces its argument `%s` by something reached through it (%s) before storing it as a child: the node no longer depends on the node it was given "
                      "(replacing or freezing that node is not seen)" % (cls.name, q, "; ".join(bad)))
 
+        # the same for the Nexus methods that build nodes from nodes they looked up (add_alias, add_function, add_dependency ...): a looked-up node that becomes
+        # a child / the target of an alias is not first replaced by something reached through it (`n = n.ref`: the alias of an alias bound to the target)
+        node_class_names = {c.name for c in family} | {c.name for c in NodeBase.concrete_leafs()}
+        for f in sorted(Nexus.methods.values(), key=lambda m: m.name):
+            used = set()
+            for c in ast.walk(f.node):
+                if isinstance(c, ast.Call) and ((isinstance(c.func, ast.Name) and c.func.id in node_class_names)
+                                                or (isinstance(c.func, ast.Attribute) and c.func.attr in ("add_child", "set_children", "add_parent"))):
+                    used |= {x.id for a in list(c.args) + [k.value for k in c.keywords] for x in ast.walk(a) if isinstance(x, ast.Name)}
+            for q in sorted(used):
+                bad = []
+                for n in ast.walk(f.node):
+                    if isinstance(n, ast.Assign) and any(isinstance(t, ast.Name) and t.id == q for t in n.targets):
+                        for x in ast.walk(n.value):
+                            if isinstance(x, (ast.Attribute, ast.Subscript)) and any(isinstance(y, ast.Name) and y.id == q for y in ast.walk(x.value)) \
+                                    and not (isinstance(x, ast.Attribute) and x.attr in ("name", "value")):
+                                bad.append("%s = %s" % (q, " ".join(ast.unparse(n.value).split())))
+                if bad:
+                    R.ob("B9", "%s:%s" % (f.qualname, q), False, eng.where(f),
+                         "%s replaces the node `%s` it looked up by something reached through it (%s) before it becomes a child / an alias target: the new node no longer depends on "
+                         "the node that was named (an alias of an alias is bound to the target: redefining the inner alias is not seen)" % (f.qualname, q, "; ".join(bad)))
+        nexus_builders = [m for m in Nexus.methods.values() if any(isinstance(c, ast.Call) and isinstance(c.func, ast.Name) and c.func.id in node_class_names for c in ast.walk(m.node))]
+        R.ob("B9", "Nexus:node-building methods found", len(nexus_builders) >= 2, (mod.file if hasattr(mod, "file") else "kafe2/core/fitters/nexus.py", 1),
+             "the Nexus methods that construct nodes (add_alias, add_function ...) were not found")
+
     # ---- B8: update() leaves no stale child behind (dependency-only children included)
     with R.guard("B8: update() leaves no stale child behind (dependencyonly ch"):
         R.rule("B8", "update() of a node whose children are not all function parameters brings every stale, non-frozen child up to date before it clears its own flag "
